@@ -20,6 +20,10 @@ class UserBoom(Exception):
         self.tag = tag
 
 
+class Crash(UserBoom):
+    """injected at an enumerated crash point; generated except blocks re-raise it"""
+
+
 class NotJson:
     def __repr__(self):
         return '<NotJson>'
@@ -121,7 +125,7 @@ class Ctx:
             n = self.npoints
         cb = self.hooks.get('point')
         if cb is not None:
-            cb(n, label)
+            cb(self, n, label)
 
 
 def version_class(ctx, fname):
@@ -402,7 +406,7 @@ def call_bf(ctx, fr, s):
         note_exception(ctx, e)
         if ctx.real:
             peek_after_bf(ctx, target_abs, False, e)
-        if not o.get('catch'):
+        if not o.get('catch') or isinstance(e, Crash):
             raise
         return ['exc', errname(e)]
     if ctx.real:
@@ -466,7 +470,7 @@ def call_sb(ctx, fr, s):
         ret = fr.b.subbuild(fname, fn, *sent_args, **sent_kwargs)
     except Exception as e:
         note_exception(ctx, e)
-        if not o.get('catch'):
+        if not o.get('catch') or isinstance(e, Crash):
             raise
         return ['exc', errname(e)]
     if o.get('keep'):
@@ -516,3 +520,15 @@ def targets_ok(program, body):
             if x != y and (y.startswith(x + '/') or x == ''):
                 return False
     return True
+
+
+def crash_hook(k):
+    """point hook raising Crash at the k-th program point (1-based)"""
+    def cb(ctx, n, label):
+        if n == k:
+            e = Crash('crash@%d:%s' % (k, label))
+            with ctx.lock:
+                ctx.booms.append(e)
+                ctx.crashed_at = label
+            raise e
+    return cb
